@@ -199,7 +199,9 @@ def closure(cell):
                 frontier = []
                 break
     return {'v': viol[:5], 'n': transitions, 'states': len(seen), 'transitions': transitions, 'traces': transitions,
-            'nt': [dim, u0n, m] if len(seen) > 1 else None, 'obs': len(seen)}
+            'nt': [dim, u0n, m] if len(seen) > 1 else None, 'obs': len(seen),
+            'sample': {'start': f'{m} {u0n}', 'reachable_display_states': sorted(U_.name if hasattr(U_, 'name') else str(U_) for U_ in [__import__('py_ballisticcalc').Unit(s_[1]) for s_ in seen]),
+                       'operations_per_state': len(ops), 'longest_shortest_history': max(seen.values(), key=len)}}
 
 
 def compare(cell):
